@@ -161,6 +161,60 @@ func c02ReencodeLimits(r *run.Run) {
 		})
 }
 
+// c02ReencodeHeader: GSUB files whose three lists stand in another order than the library writes them, with a
+// feature list that reaches beyond 64 KiB (its last feature has many lookup indices): every offset of the
+// file fits into its 16 bits, so the file is well formed; gtab.Read refuses it or returns a value that
+// Encode can write.
+func c02ReencodeHeader(r *run.Run) {
+	seed := c02TableSeed("gtab.Read/GSUB", "re-encode header", nil)
+	lookupList := append(be16(1, 4, 1, 0, 1, 8), append(be16(1, 6, 1), be16(1, 1, 1)...)...)
+	scriptList := append(append(be16(1), 'D', 'F', 'L', 'T'), be16(8, 4, 0, 0, 0xFFFF, 1, 0)...)
+	featureList := func(n, m int) []byte {
+		out := be16(n + 1)
+		pos := 2 + 6*(n+1)
+		for i := 0; i <= n; i++ {
+			out = append(out, []byte(fmt.Sprintf("f%03d", i%1000))...)
+			out = append(out, be16(pos)...)
+			pos += 6
+		}
+		for i := 0; i < n; i++ {
+			out = append(out, be16(0, 1, 0)...)
+		}
+		out = append(out, be16(0, m)...)
+		return append(out, make([]byte, 2*m)...) // m times lookup index 0
+	}
+	ms := []int{1, 1000, 16000}
+	for m := 32640; m <= 32768; m += 8 {
+		ms = append(ms, m)
+	}
+	ms = append(ms, 40000, 65535)
+	r.Explore(explore.Config{Name: "C02.reencode-header", Deadline: r.PartDeadline(0.2)},
+		"GSUB tables assembled byte by byte whose lists stand in every one of the 6 orders, with 1 or 100 small features and a last feature with m lookup indices, m in {1, 1000, 16000, every 8th value 32640..32768, 40000, 65535} (the feature list reaches beyond 64 KiB; orders in which a list would start beyond 64 KiB cannot be written down and are skipped): gtab.Read returns an error or a value whose Encode does not panic",
+		func(c *explore.Ctx) {
+			order := [][3]int{{0, 1, 2}, {0, 2, 1}, {1, 0, 2}, {1, 2, 0}, {2, 0, 1}, {2, 1, 0}}[c.Choose(6, "order of script list, feature list, lookup list")]
+			n := []int{1, 100}[c.Choose(2, "small features")]
+			m := ms[c.Choose(len(ms), "lookup indices of the last feature")]
+			parts := [3][]byte{scriptList, featureList(n, m), lookupList}
+			var offs [3]int
+			pos := 10
+			body := []byte{}
+			for _, k := range order {
+				offs[k] = pos
+				pos += len(parts[k])
+				body = append(body, parts[k]...)
+			}
+			if offs[0] > 0xFFFF || offs[1] > 0xFFFF || offs[2] > 0xFFFF {
+				c.Skip("a list would start beyond 64 KiB")
+			}
+			b := append(be16(1, 0, offs[0], offs[1], offs[2]), body...)
+			what := func() string {
+				return fmt.Sprintf("GSUB with the lists in the order %v (0 script, 1 feature, 2 lookup list), %d small features and a last feature with %d lookup indices (%d bytes)", order, n, m, len(b))
+			}
+			c.Sample(func() any { return what() })
+			c02Check(c, seed, b, what)
+		})
+}
+
 // c02ReencodeGdef: GDEF files whose class definition tables are large, shared between the two class
 // offsets, or laid out with the large table last: gdef.Read refuses or returns a value Encode can write.
 func c02ReencodeGdef(r *run.Run) {
